@@ -143,6 +143,29 @@ class Check(PropertyCheck):
             names = [i.name for i in la]
             if len(set(names)) != len(names):
                 res.append(("names", f"names reused: {names}"))
+            # the public helper create_random_operation() used directly (no machine pool given), then instances from this and
+            # from another generator of the same shop sizes: every instance still has the requested shape
+            mpo = kw["machines_per_operation"]
+            k1, k2 = (mpo, mpo) if isinstance(mpo, int) else mpo
+            (j1, j2), (m1, m2) = kw["num_jobs"], kw["num_machines"]
+            al, rc = kw["allow_less_jobs_than_machines"], kw["allow_recirculation"]
+            h = GeneralInstanceGenerator(**kw)
+            for _ in range(3):
+                op = h.create_random_operation()
+                if not 1 <= op.duration <= 9 or any(not 0 <= m < m2 for m in op.machines) or \
+                        not k1 <= len(op.machines) <= k2 or len(set(op.machines)) != len(op.machines):
+                    res.append(("helper-operation", f"create_random_operation() returned machines {op.machines} duration "
+                                f"{op.duration} (machines < {m2}, {k1}..{k2} per operation, durations 1..9)"))
+            h2 = GeneralInstanceGenerator(**kw)
+            later = [h.generate(), h2.generate()]
+            for gg in (h2, h):
+                try:
+                    later.append(gg.generate(num_machines=m2))
+                except Exception:  # pylint: disable=broad-except
+                    pass            # refused (fewer jobs than machines not allowed): fine
+            for inst in later + first + sized[:3]:
+                res += [(k, f"(generator with seed {seed}, after direct create_random_operation() calls) {msg}")
+                        for k, msg in self.shape(inst, j1, max(j2, nj), m1, max(m2, nj), 1, 9, al, rc, k1, k2)]
             # support: all machines occur over many draws when k >= 2
             M = 5
             g = GeneralInstanceGenerator(num_jobs=4, num_machines=M, machines_per_operation=2, seed=seed)
